@@ -27,6 +27,15 @@ def setHref (idna : Idna) (u : Url) (v : Bytes) : Url :=
   | some n => n
   | none => u
 
+/-- scheme state with a state override, once `buf` (the lower-cased scheme) is complete -/
+def protocolCore (u : Url) (buf : Bytes) : Url :=
+  if isSpecialScheme u.scheme != isSpecialScheme buf then u
+  else if (u.includesCredentials || u.port.isSome) && buf == bFile then u
+  else if u.scheme == bFile && u.host == some .empty then u
+  else
+    let u := { u with scheme := buf }
+    if u.port.isSome && u.port == defaultPort buf then { u with port := none } else u
+
 /-- protocol setter: scheme start state override on `v ++ ":"` -/
 def setProtocol (u : Url) (v : Bytes) : Url :=
   let s := stripTN (v ++ [0x3A])
@@ -36,14 +45,7 @@ def setProtocol (u : Url) (v : Bytes) : Url :=
     if !isAsciiAlpha c then u else
     let name := s.takeWhile isSchemeChar
     match s.drop name.length with
-    | 0x3A :: _ =>
-      let buf := name.map toLowerByte
-      if isSpecialScheme u.scheme != isSpecialScheme buf then u
-      else if (u.includesCredentials || u.port.isSome) && buf == bFile then u
-      else if u.scheme == bFile && u.host == some .empty then u
-      else
-        let u := { u with scheme := buf }
-        if u.port.isSome && u.port == defaultPort buf then { u with port := none } else u
+    | 0x3A :: _ => protocolCore u (name.map toLowerByte)
     | _ => u
 
 def setUsername (u : Url) (v : Bytes) : Url :=
